@@ -34,6 +34,8 @@ RULES["C14"] = (
     "parent's cells (same set = pocket following the channel, or pieces of a split): concave holes in concave shells whose "
     "centroid lies outside the shell, and neighbours interleaved without nesting (inside the bounding box of / around the "
     "centroid of another curve); areas and lengths are exact integers times 2^k. "
+    "Arc middle control points lie anywhere in 5%..95% of the span, spans reach 1.9 pi; drawings are made in place up to 1e6 sizes "
+    "away from the origin, or moved 1e4..2e5 sizes away before a round trip. "
     "Non-trivial: >=2 curves with nesting, >=1 curve in >=2 entities, >=1 entity reversed."
 )
 ASSUMPTIONS["C14"] = [
@@ -281,6 +283,8 @@ def class_labels(D, stats=None, vs=None):
     if any(len(c.children) >= 2 for c in D.curves):
         out.append("siblings_in_one_parent")
     out += list(D.extra_labels)
+    ratio = D.cmax / D.scale
+    out.append("offset/size>=1e3" if ratio >= 1e3 else "offset/size>=30" if ratio >= 30 else "offset/size<30")
     if stats is not None:
         if stats["dups"]:
             out.append("dup_joints")
@@ -473,7 +477,8 @@ def storage_slack(D, fmt):
         # 0.13f: absolute 5e-14 per coordinate. An arc is stored as end points + radius, so its sagitta h = sqrt(r^2 - c^2/4)
         # and angle 2 asin(c/2r) inherit the chord error with the sensitivity of that parametrisation (unbounded at a
         # semicircle); a circle is stored as two semicircles of rounded radius r and rounded chord 2r.
-        d0 = 2 * 5e-14 * math.sqrt(2)
+        # ... and the reader (svg.path) works in double precision on those coordinates: 4 eps |c|
+        d0 = 2 * (5e-14 + 4 * EPS * D.cmax) * math.sqrt(2)
         delta = d0
         for c in D.curves:
             for _, r, _, phi in c.arc_info:
@@ -517,9 +522,28 @@ def b_roundtrip(case, ctx):
             # every loader merges vertices on the 1e-4 * scale grid: nothing to demand of a drawing with finer detail
             ctx.note(nontrivial=False, cls="below_merge_resolution")
             return
-        ctx.note(nontrivial=nontrivial(D, stats), cls=class_labels(D, stats, vs) + [f"fmt:{fmt}:{al}", "export_warm" if case["warm"] else "export_cold"])
+        labels = class_labels(D, stats, vs) + [f"fmt:{fmt}:{al}", "export_warm" if case["warm"] else "export_cold"]
         if case["warm"]:
             _ = p.paths, p.discrete, p.area
+        shift = case.get("shift")
+        if shift:
+            # the drawing is moved far away before it is stored: the loader's clean-up works from the size of the drawing
+            # (tol_path.merge * Path.scale), not from its position
+            M = np.eye(3)
+            M[:2, 2] = [shift[0] * D.size, shift[1] * D.size]
+            p.apply_transform(M)
+            D0 = D
+            D = TransformedDrawing(D0, M)
+            D.size, D.merge_safe, D.extra_labels = D0.size, D0.merge_safe, D0.extra_labels
+            labels.append("shifted_before_export")
+        slack = storage_slack(D, fmt)
+        if fmt == "dxf" and D.has_arcs and slack["delta"] > 1e-9 * D.scale:
+            # the dxf reader re-creates arc end points from centre / radius / angles stored to 12 significant digits; far from
+            # the origin they come back displaced by a sizeable fraction of the merge grid (>= 1e-5 * scale) and may or may not
+            # merge with their neighbours ("go either way" rounding, documented in grouping.float_to_int): not demanded
+            ctx.note(nontrivial=False, cls=labels + ["dxf_arc_joint_below_12_digits"])
+            return
+        ctx.note(nontrivial=nontrivial(D, stats), cls=labels)
         n_ent = len(p.entities)
         sig = f"C14.roundtrip|{fmt}"
         if fmt == "dict":
@@ -535,7 +559,6 @@ def b_roundtrip(case, ctx):
             raw = data.encode("utf-8") if isinstance(data, str) else data
             q = trimesh.load_path(io.BytesIO(raw), file_type=fmt)
             check(isinstance(q, Path2D), sig + "|load_type", f"{type(q).__name__}")
-        slack = storage_slack(D, fmt)
         # a joint between an arc and its neighbour is re-created from centre / radius / angles by the dxf reader: whether
         # the path comes back closed is its own clause
         if not bool(q.is_closed) and fmt == "dxf" and D.has_arcs:
@@ -586,6 +609,7 @@ def roundtrip_case(draw, fmt):
         "variant": draw(gd.variant_spec()),
         "fmt": fmt,
         "warm": draw(st.booleans()),
+        "shift": draw(st.sampled_from([None, None, None, [1e4, -3e3], [-2e5, 1e5]])),
     }
 
 
@@ -653,6 +677,9 @@ REQUIRED_CLASSES["C14"] = [
     "fmt:dict:arcs",
     "fmt:dxf:poly",
     "fmt:svg:poly",
+    "offset/size>=1e3",
+    "offset/size>=30",
+    "shifted_before_export",
     "family:lattice",
     "lattice:grown",
     "concave_in_concave",
